@@ -28,9 +28,12 @@ def same_gated(a, b):
 
 
 def make_data(F, rng, ctx, path, nmax):
-    kind = int(rng.integers(4))
+    kind = int(rng.integers(5))
     N = int(rng.choice([0, 1, 2, 3, 5])) if rng.random() < 0.25 else int(rng.integers(0, nmax + 1))
     D = int(rng.integers(2, 6))
+    if kind == 4:
+        # 8-bit sample (uint8 container)
+        return zoo.write_and_load(F, zoo.int_spec(rng, n=N, d=D, limits=True, res=256, width=8), path), 'u8-sample'
     if kind == 0:
         return zoo.write_and_load(F, zoo.int_spec(rng, n=N, d=D, limits=True), path), 'int-sample'
     if kind == 1:
@@ -46,7 +49,7 @@ def run(ctx):
     mon.attach_gates()
     G = F.gate
     path = os.path.join(ctx.tmpdir, 'c08.fcs')
-    n = 160 if ctx.tier == 'quick' else 4000
+    n = 160 if ctx.tier == 'quick' else 24000
     nmax = 300 if ctx.tier == 'quick' else 2000
     for cid, rng in ctx.cases([('d', i) for i in range(n)]):
         mon.cid = cid
@@ -152,6 +155,18 @@ def run(ctx):
                 center = [xi - a, yi] if rng.random() < 0.5 else [xi, yi + b]
                 if (center[0] + (xi - center[0]) != xi) or (center[1] + (yi - center[1]) != yi):
                     center = [float(round(xi)) - a, float(round(yi))]
+            elif N >= 1 and rng.random() < 0.4:
+                # an existing event placed just inside / just outside the ellipse through the choice of the centre
+                i = int(rng.integers(N))
+                xi, yi = float(X[i, 0]), float(X[i, 1])
+                if not log or (xi > 0 and yi > 0):
+                    lx, ly = (np.log10(xi), np.log10(yi)) if log else (xi, yi)
+                    delta = float(rng.choice([1e-3, 1e-4, 1e-6, -1e-4, -1e-6]))
+                    theta = 0 if rng.random() < 0.5 else theta
+                    c, s_ = np.cos(theta), np.sin(theta)
+                    r = a * (1 - delta)
+                    center = [lx - r * c, ly - r * s_]
+                    planted = max(planted, 1)
             o = core.attempt(G.ellipse, d2, ch, center, a, b, theta, log, True)
             if ctx.check(not o.raised, 'ellipse:valid-call-refused', cid, kind=kind, channels=ch,
                          exc=core.exc_str(o.exc) if o.raised else None):
@@ -169,4 +184,7 @@ def run(ctx):
             ctx.counters['chk:refusal'] += 1
             if ctx.check(o.raised, 'refusal:ellipse-channel-count-accepted', cid, channels=bad):
                 ctx.refusal('ellipse-channels:' + type(o.exc).__name__)
+    # the repository's own tests as a workload under the same monitors (their assertions are not the oracle)
+    from rv import suite_workload
+    suite_workload.run_repo_suite(ctx, mon, modules=('test_gate.py',))
     mon.detach()
